@@ -26,15 +26,19 @@ import (
 
 // extraC11Exec: executors defined in c11b.go
 var extraC11Exec = map[string]h.ExecFn{
-	"go.adnl.concurrent": goAdnlConcurrent,
-	"go.adnl.coalesced":  goAdnlCoalesced,
-	"go.adnl.magics":     goAdnlMagics,
-	"adnl.keyid":         exAdnlKeyID,
-	"adnl.scalar":        exAdnlScalar,
-	"adnl.tomont":        exAdnlToMont,
-	"go.adnl.sharedkey":  goAdnlSharedKey,
-	"go.adnl.newkeys":    goAdnlNewKeys,
-	"adnl.reader":        func(a []string) string { return "bad-op" }, // model-only op (asked by go.adnl.magics)
+	"go.adnl.concurrent":   goAdnlConcurrent,
+	"go.adnl.coalesced":    goAdnlCoalesced,
+	"go.adnl.magics":       goAdnlMagics,
+	"go.adnl.connfaults":   goAdnlConnFaults,
+	"go.adnl.slowconsumer": goAdnlSlowConsumer,
+	"go.adnl.dialdeadline": goAdnlDialDeadline,
+	"go.adnl.pingrace":     goAdnlPingRace,
+	"adnl.keyid":           exAdnlKeyID,
+	"adnl.scalar":          exAdnlScalar,
+	"adnl.tomont":          exAdnlToMont,
+	"go.adnl.sharedkey":    goAdnlSharedKey,
+	"go.adnl.newkeys":      goAdnlNewKeys,
+	"adnl.reader":          func(a []string) string { return "bad-op" }, // model-only op (asked by go.adnl.magics)
 }
 
 func init() {
